@@ -5,9 +5,10 @@ from .sym import Contract
 CONTRACTS: list[Contract] = []
 
 
-def contract(qual, joined_locals=(), **kw):
+def contract(qual, joined_locals=(), comps=None, **kw):
     c = Contract(qual, **kw)
     c.joined_locals = tuple(joined_locals)
+    c.comps = comps or {}
     CONTRACTS.append(c)
     return c
 
